@@ -336,3 +336,34 @@ Proof.
     exists sec. repeat split; try assumption.
     intro Hm. rewrite Hl. specialize (Hsz Hm). rewrite Forall_forall in Hsz. apply Hsz. eapply nth_error_In; exact Hnth.
 Qed.
+
+(* ---------------- the server's MessageWriter ---------------- *)
+(* MessageWriter::write delegates to Chunker::encode with the send buffer size negotiated for the
+   connection: everything end_to_end says holds of what the writer emits, in particular every
+   secured chunk is at most the negotiated size *)
+Theorem writer_ok (P : prims) (fx : fixes) :
+  fx_pad_sign fx = true -> fx_budget fx = true -> fx_opn_budget fx = true ->
+  forall (S : sender) (R : receiver), link P S R ->
+  forall (t : mtype) (req last negotiated : Z) (data : bytes),
+  0 <= req < U32 -> data <> [] -> len data <= 1073741824 -> 0 <= last -> last + 1 + len data < U32 ->
+  src_min_chunk <= negotiated ->
+  exists parts,
+    let cs := mk_chunks S t (last + 1) req parts in
+    writer_chunks true fx S t last req negotiated data = Ok cs /\ parts <> [] /\ concat parts = data /\
+    (forall i b, nth_error parts i = Some b ->
+       let plain := new_chunk S t (if Nat.eqb (Datatypes.S i) (length parts) then 1 else 0) (last + 1 + Z.of_nat i) req b in
+       nth_error cs i = Some plain /\
+       exists sec, apply_security P fx S t plain = Ok sec /\
+                   recv P fx R sec = (Ok plain, r_policy R) /\
+                   len sec <= negotiated) /\
+    validate_chunks P fx R (last + 1) cs = Ok (last + 1 + Z.of_nat (length parts) - 1) /\
+    decode P R cs = Ok data.
+Proof.
+  intros F1 F2 F3 S R L t req last negotiated data Hreq Hne Hlen H0 Hseq Hneg.
+  destruct (end_to_end P fx F1 F2 F3 S R L t req (last + 1) negotiated data Hreq Hne Hlen ltac:(lia) Hseq (or_intror Hneg))
+    as (parts & Henc & Hp & Hcat & Hch & Hval & Hdec).
+  exists parts. cbn zeta in *. unfold writer_chunks. repeat split; try assumption.
+  - apply (Hch i b H).
+  - destruct (Hch i b H) as (_ & sec & Ha & Hr & Hl). exists sec. repeat split; try assumption.
+    apply Hl. change src_min_chunk with 8196 in Hneg. lia.
+Qed.
